@@ -158,6 +158,10 @@ def adapt_case(method):
             del kn.min
         tab = kn.KeplerNum.BUTCHER[method]
         s = len(tab["b"])
+        if not probe.seen or tab.get("b_star") is None:
+            # the step was taken without consulting the tolerance at all: no embedded error estimate reached _make_step
+            return {"stages": len(calls), "compared_quantity_squared": 0, "compared_quantity_is_a_norm": Holds(SB(z3.BoolVal(True))),
+                    "new_step_power_law": v["tol"], "_e2": 0, "tolerance_consulted": Holds(SB(z3.BoolVal(False)))}
         ks = [fvec(y.date.t, y) for y in calls[:s]]
         err = [sum(v["h"] * core.R.const(float(tab["b"][i] - tab["b_star"][i])) * ks[i][m] for i in range(s)) for m in range(3)]
         e2 = err[0] * err[0] + err[1] * err[1] + err[2] * err[2]
@@ -168,7 +172,8 @@ def adapt_case(method):
         for t, e in p_err.f.values():
             if e % 2:
                 nonneg = nonneg & SB(t >= 0)
-        out = {"stages": len(calls), "compared_quantity_squared": p_err * p_err, "compared_quantity_is_a_norm": Holds(nonneg)}
+        out = {"stages": len(calls), "compared_quantity_squared": p_err * p_err, "compared_quantity_is_a_norm": Holds(nonneg),
+               "tolerance_consulted": Holds(SB(z3.BoolVal(True)))}
         if not accepted:
             a, b = mins[0]
             ratio = b.secs / v["h"]
@@ -191,15 +196,21 @@ def adapt_case(method):
             step, y1 = prop._make_step(prop.orbit, _td(seconds=120 * sgn))
             res[sgn] = abs(step.total_seconds())
         same = abs(res[1] - res[-1]) <= 0.2 * res[1]
+        # adaptivity is alive: with a tolerance far below the error of a 120 s step, the step that is taken is shorter
+        prop = kn.KeplerNum(_td(seconds=120), get_body("Earth"), method=method, tol=1e-9)
+        orb = Orbit([7e6, 0, 0, 0, 7.6e3, 500.0], Date(2020, 1, 1), "cartesian", "EME2000", prop)
+        prop.orbit = orb
+        step, y1 = prop._make_step(prop.orbit, _td(seconds=120))
         return {"stages": 0, "compared_quantity_squared": 0.0, "compared_quantity_is_a_norm": Holds(same), "new_step_power_law": 0.0,
-                "_e2": 0.0}
+                "_e2": 0.0, "tolerance_consulted": Holds(abs(step.total_seconds()) < 119.0)}
 
     def ref(env, v, out):
         if not env.symbolic:
-            return {"stages": 0, "compared_quantity_squared": 0.0, "compared_quantity_is_a_norm": None, "new_step_power_law": 0.0, "_e2": 0.0}
+            return {"stages": 0, "compared_quantity_squared": 0.0, "compared_quantity_is_a_norm": None, "new_step_power_law": 0.0, "_e2": 0.0,
+                    "tolerance_consulted": None}
         kn = importlib.import_module("beyond.propagators.keplernum")
         return {"stages": len(kn.KeplerNum.BUTCHER[method]["b"]), "compared_quantity_squared": out["_e2"], "compared_quantity_is_a_norm": None,
-                "new_step_power_law": v["tol"], "_e2": out["_e2"]}
+                "new_step_power_law": v["tol"], "_e2": out["_e2"], "tolerance_consulted": None}
     return Case(f"adapt/{method}", ins, run, ref, pre=pre, timeout=60, maxpaths=20,
                 desc=f"{method}: what is compared with the tolerance is |h (b - b*) . k| on the position part (a norm, for forward and "
                      "backward steps); accepted iff <= tol, otherwise the next trial step is min(configured step, "
@@ -332,6 +343,11 @@ def _order_conditions(a, b, c, p):
 def tableau_group():
     kn = importlib.import_module("beyond.propagators.keplernum")
     obs = []
+    # the entries of a tableau that the integrator actually reads (self.butcher["x"] / self.butcher.get("x") in the source): an
+    # entry stored under any other name never reaches it
+    import inspect
+    import re
+    read_keys = set(re.findall(r"butcher(?:\.get\(|\[)\s*[\"']([A-Za-z_]+)[\"']", inspect.getsource(kn.KeplerNum)))
     for method, ref in TEXTBOOK.items():
         tab = kn.KeplerNum.BUTCHER[method]
         ra = [[Fr(x) for x in row] for row in ref["a"]]
@@ -345,7 +361,8 @@ def tableau_group():
             x = z3.RealVal(repr(float(val)))
             t = z3.RealVal(q.numerator) / z3.RealVal(q.denominator)
             bad.append(z3.Or(x - t > z3.RealVal("1e-15"), t - x > z3.RealVal("1e-15")))
-        ok_shape = len(tab["b"]) == len(rb) and len(tab["c"]) == len(rc)
+        ok_shape = len(tab["b"]) == len(rb) and len(tab["c"]) == len(rc) and set(tab) <= read_keys and \
+            ("b_star" not in ref or tab.get("b_star") is not None)
         if ok_shape:
             for i, q in enumerate(rb):
                 near(tab["b"][i], q, f"b{i}")
@@ -360,7 +377,8 @@ def tableau_group():
                     near(tab["b_star"][i], Fr(q), f"bs{i}")
         s.add(z3.Or(bad + [z3.BoolVal(not ok_shape)]))
         obs.append(dict(name=f"tableau/{method}/values", smt2=s.sexpr(), trivial=False, expect="unsat", vars=[], timeout=30, solver="z3",
-                        desc=f"{method}: every a, b, c (and b*) entry of KeplerNum.BUTCHER equals the textbook rational to 1e-15",
+                        desc=f"{method}: every a, b, c (and b*) entry of KeplerNum.BUTCHER equals the textbook rational to 1e-15, stored under "
+                             f"the names the integrator reads ({sorted(read_keys)})",
                         replay={"kind": "tableau", "method": method}, n_constraints=len(bad), tags=["tableau"]))
         # (2) the textbook tableau satisfies the order conditions (exact rationals), for b and for b*
         for which, bvec, p in (("b", rb, ORDER[method]),) + ((("b_star", [Fr(x) for x in ref["b_star"]], STAR_ORDER[method]),) if "b_star" in ref else ()):
